@@ -16,6 +16,7 @@ RULE = ("calibrate_thermal for all 17 spacecraft x channels 3b/4/5 on passes lon
         "read from first line numbers 1..5 (first k lines dropped): identical BT outside the 25-line edge zone; (iv) a "
         "pixel's BT unchanged when the other pixels of its line change; plus model correspondence (1e-6 K). A case = "
         "(spacecraft, channel, pass, clause); distinct by those keys")
+RULE += (" In the thorough tier, and in the quick tier whenever the source differs from the validated baseline, a LONG-PASS stream is added (passes of 1300 .. 12000 lines, just beyond multiples of 256 .. 8192, with the property-relevant event placed at and after such multiples; DESIGN 10.4 round 13).")
 TRUSTED_EXTRA = ["the 1 K bound on the non-linearity residue at the internal target and libm exp/log are numerical support, "
                  "not theorems; proved are monotonicity (bt_antitone + H_table for every row), the anchor algebra and phase freedom"]
 
